@@ -333,10 +333,17 @@ def check_conditional(case, ctx):
             return
         u = np.asarray(Fexact(smp), dtype=float)
         D = sb.ks_stat(u)
-        eps = sb.dkw_eps(n) + (2e-3 if dim == 0 else 0)
+        # the property is stated for values in (1e-3, 1e2) (the sampler documents 100 as its largest upper limit): exact
+        # mass outside that window (a Tz law with median 6.5 s at Hs = 5 mm has 2.8e-4 beyond 100 s) is not "cut tail"
+        out_hi = max(0.0, 1.0 - float(np.asarray(Fexact(100.0))))
+        out_lo = max(0.0, float(np.asarray(Fexact(1e-3))))
+        if out_hi + out_lo > 1e-3:
+            ctx.cls("conditional_law_outside_the_documented_window")
+            return
+        eps = sb.dkw_eps(n) + (2e-3 if dim == 0 else 0) + out_hi + out_lo
         cmax = 1 - (1e-12) ** (1.0 / n)
-        top = 1 - float(u.max())
-        bot = float(u.min())
+        top = 1 - float(u.max()) - out_hi
+        bot = float(u.min()) - out_lo
         if top > cmax or bot > cmax:
             side = "upper" if top > cmax else "lower"
             ctx.violation(f"conditional_sample:tail_truncated:{lvl}", f"{tagg}: n={n}; the {side} tail beyond the most extreme draw has exact mass {max(top, bot):.4g} (bound {cmax:.3g}): the sampler's support search cuts the conditional distribution")
